@@ -73,10 +73,13 @@ impl<K, V, const N: usize> Map<K, V, N> {
     /// ```
     #[inline]
     pub fn clear(&mut self) {
-        for i in 0..self.len {
+        // detach the elements first: if a destructor panics, the map is
+        // already empty and the remaining elements are leaked, not dropped twice
+        let len = self.len;
+        self.len = 0;
+        for i in 0..len {
             unsafe { self.item_drop(i) };
         }
-        self.len = 0;
     }
 
     /// Retains only the elements specified by the predicate.
